@@ -144,6 +144,15 @@ func observeAnalysis(text string) J {
 		r1 := analysis.CheckSource(text)
 		r2 := analysis.CheckSource(text)
 		obs["diags"] = diagsToJSON(r1.Diagnostics)
+		if len(r1.Diagnostics) >= 8 {
+			// many diagnostics: whatever is collected from a map and then limited, sorted or de-duplicated shows after a few more analyses
+			for k := 0; k < 6; k++ {
+				rk := analysis.CheckSource(text)
+				if strings.Join(diagSet(r1.Diagnostics), "|") != strings.Join(diagSet(rk.Diagnostics), "|") || strings.Join(symSet(r1.GetSymbols()), "|") != strings.Join(symSet(rk.GetSymbols()), "|") {
+					obs["deterministic"] = false
+				}
+			}
+		}
 		stage = "symbols"
 		s1 := r1.GetSymbols()
 		s2 := r2.GetSymbols()
@@ -152,7 +161,11 @@ func observeAnalysis(text string) J {
 			obs["deterministic"] = false
 		}
 		n := 0
+		// very long documents (the size family): every position of the first and last 40 lines, every 7th line in between
 		for li, l := range lines {
+			if len(lines) > 120 && li >= 40 && li < len(lines)-40 && li%7 != 0 {
+				continue
+			}
 			for ch := 0; ch <= len([]rune(l))+1; ch++ {
 				pos := parser.Position{Line: li, Character: ch}
 				stage = fmt.Sprintf("hover at %d:%d", li, ch)
